@@ -2,7 +2,7 @@
 import ast
 
 from sa.program import src, own_nodes, call_name, parent, kwarg, AnchorMissing
-from sa import guards, optional, chains
+from sa import guards, resolve, optional, chains
 
 EXPLANATION = (
     "Static rules over pyiga/_hdiscr.py, hierarchical.py, mlmatrix.py, bspline.py and the code generator: (R03.1) Optional-field "
@@ -285,7 +285,91 @@ def r03_12(ctx):
         ctx.met('R03.12', am.qual, 'for lv in ' + src(loop.iter), loop, 'all coarser levels are searched: no admissibility assumption')
 
 
+def r03_13(ctx):
+    """(a) function_grandchildren(lv, indices, target) descends one level per recursion step WITH the children of its
+    indices: the recursive call receives function_children(lv, indices), not the indices of level lv themselves.
+    (b) The rows of level k that assemble_matrix computes contain every row needed to represent the coarse neighbours
+    (interlevel_ix) plus the active functions: nothing is removed from that union -- a deactivated level-k function can be a
+    grandchild of an active coarse function and still overlap active level-k functions."""
+    fg = ctx.prog.func(H + '.HMesh.function_grandchildren')
+    params = [a.arg for a in fg.node.args.args]
+    rec = [c for c in ast.walk(fg.node) if isinstance(c, ast.Call) and src(c.func).endswith('function_grandchildren')]
+    for c in rec:
+        if len(c.args) < 2:
+            continue
+        a1 = resolve.expand(c.args[1], c)
+        via_children = any(isinstance(x, ast.Call) and src(x.func).endswith('function_children') for x in ast.walk(a1))
+        same = isinstance(c.args[1], ast.Name) and len(params) > 2 and c.args[1].id == params[2] and not via_children
+        ctx.decide('R03.13', fg.qual, src(c)[:100], True if via_children else (False if same else None), c,
+                   'the next level receives the children' if via_children else
+                   'the recursion passes the indices of level lv on to level lv+1 unchanged: for a level gap of two or more the wrong rows are '
+                   'collected for the inter-level blocks of assemble_matrix (missing rows are silently zero)', definite=True)
+    am = ctx.prog.func(HD + '.HDiscretization.assemble_matrix')
+    ap = [c for c in ast.walk(am.node) if isinstance(c, ast.Call) and src(c.func) == 'to_assemble.append' and c.args]
+    for c in ap:
+        e = resolve.expand(c.args[0], c, keep=('indices', 'hs', 'k'))
+        subtr = [b for b in ast.walk(e) if isinstance(b, ast.BinOp) and isinstance(b.op, ast.Sub)] + \
+                [x for x in ast.walk(e) if isinstance(x, ast.Call) and isinstance(x.func, ast.Attribute) and x.func.attr in ('difference', 'intersection')] + \
+                [b for b in ast.walk(e) if isinstance(b, ast.BinOp) and isinstance(b.op, ast.BitAnd)]
+        has_inter = any(isinstance(x, ast.Name) and x.id == 'indices' for x in ast.walk(e))
+        ctx.decide('R03.13', am.qual, src(c)[:100], False if subtr else (True if has_inter else None), c,
+                   'rows to assemble = inter-level rows united with the active functions' if not subtr else
+                   'rows are REMOVED from the union of the inter-level rows and the active functions: a row that represents a coarse neighbour '
+                   'on level k is then neither assembled nor filled in the representation matrix, and its share of a(coarse, fine) is lost',
+                   definite=True)
+
+
+def r03_14(ctx):
+    """Row / column indices and values of a sparse block come from ONE view of it.  B.nonzero() drops explicitly stored
+    zeros while B.data keeps them, so pairing the two gives arrays of different lengths whenever a block has a stored zero
+    (a coefficient that vanishes on part of the domain)."""
+    n = 0
+    for q in (HD + '.HDiscretization.assemble_matrix',):
+        fi = ctx.prog.func(q)
+        for fn in [fi.node] + [x for x in ast.walk(fi.node) if isinstance(x, ast.FunctionDef) and x is not fi.node]:
+            nz = [c for c in ast.walk(fn) if isinstance(c, ast.Call) and isinstance(c.func, ast.Attribute) and c.func.attr == 'nonzero' and not c.args]
+            for c in nz:
+                recv = src(c.func.value)
+                uses_data = [x for x in ast.walk(fn) if isinstance(x, ast.Attribute) and x.attr == 'data' and src(x.value) == recv]
+                if not uses_data:
+                    continue
+                n += 1
+                ctx.violated('R03.14', fi.qual, '%s.nonzero() with %s.data' % (recv, recv), c,
+                             'the index arrays come from %s.nonzero(), which omits explicitly stored zeros, the values from %s.data, which keeps '
+                             'them: a form whose tensor-product matrix has stored zeros (w*u*v*dx with w = 0 on half of the domain) cannot be '
+                             'assembled over an HSpace (ValueError: all index and data arrays must have the same length)' % (recv, recv))
+    if n == 0:
+        ctx.met('R03.14', HD + '.HDiscretization.assemble_matrix', 'indices and values of every block come from one view', None,
+                'no nonzero()/data pairing', where='pyiga/_hdiscr.py')
+
+
+def r03_15(ctx):
+    """The level-wise assemblers of HDiscretization are constructed with every argument the compiled class requires: its
+    input fields AND its constant parameters -- as assemble.instantiate_assembler does for tensor-product spaces
+    (inputs().keys() chained with parameters().keys())."""
+    ia = ctx.prog.func('pyiga.assemble.instantiate_assembler')
+    sibling_has_params = 'parameters()' in src(ia.node)
+    n = 0
+    for q in (HD + '.HDiscretization._assemble_level', HD + '.HDiscretization.assemble_functional'):
+        fi = ctx.prog.maybe_func(q)
+        if fi is None:
+            continue
+        for d in [x for x in ast.walk(fi.node) if isinstance(x, ast.DictComp) and 'asm_args' in src(x.value)]:
+            n += 1
+            it = ' '.join(src(g.iter) for g in d.generators)
+            has_params = 'params' in it or 'parameters' in it
+            ctx.decide('R03.15', fi.qual, src(d)[:90], True if has_params else (False if sibling_has_params else None), d,
+                       'inputs and parameters are handed to the level assembler' if has_params else
+                       'only the input FIELDS of the form are passed on (%s); a form with a constant parameter (c * u * v * dx with c=2.0) cannot be '
+                       'assembled over an HSpace (TypeError from the compiled class), while the tensor-product driver passes inputs and '
+                       'parameters' % it, definite=True)
+    ctx.floor('R03.15', 'argument dictionaries of the level assemblers', n, 2)
+
+
 def run(ctx):
+    r03_15(ctx)
+    r03_14(ctx)
+    r03_13(ctx)
     r03_12(ctx)
     r03_7(ctx)
     r03_1(ctx)
